@@ -215,6 +215,11 @@ func (p *Prog) storers(f *types.Var) map[*ssa.Function]bool {
 			continue
 		}
 		for _, e := range n.In {
+			if _, isGo := e.Site.(*ssa.Go); isGo {
+				// the spawned goroutine's stores do not happen "during the
+				// call"; cross-goroutine interference is C20's subject.
+				continue
+			}
 			c := e.Caller.Func
 			if !set[c] {
 				set[c] = true
